@@ -244,7 +244,8 @@ theorem pick_from (fuel : Nat) (w : Worker) : BoxesFrom w (Worker.pick fuel w).w
       · split
         · exact h0.trans (ih _)
         · split
-          · exact h0.trans (ih _)
+          · refine (h0.trans ?_).trans (ih _)
+            exact from_sub _ _ rfl (fun _ _ h => h)
           · exact h0
 
 theorem desiredResult_from (w w' : Worker) (t t' : Task) (v : Option Val)
@@ -392,28 +393,26 @@ theorem runBody_out (tbl : Table) (fuel : Nat) (r : Run) (K : List Ev) (h : ResO
     · exact h
     · exact h
 
-theorem completionLoop_integrity (K : List Ev) (fuel i : Nat) (r : Run) (hW : WFilled K r.w)
+theorem completionLoop_integrity (K : List Ev) (ms : List Nat) (r : Run) (hW : WFilled K r.w)
     (hout : ResOK K r.out) :
-    WFilled K (completionLoop fuel i r).1.w ∧ ResOK K (completionLoop fuel i r).1.out := by
-  induction fuel generalizing i r with
-  | zero => exact ⟨hW, hout⟩
-  | succ n ih =>
+    WFilled K (completionLoop ms r).1.w ∧ ResOK K (completionLoop ms r).1.out := by
+  induction ms generalizing r with
+  | nil => exact ⟨hW, hout⟩
+  | cons m ms ih =>
     simp only [completionLoop]
     split
-    · exact ⟨hW, hout⟩
     · split
-      · split
-        · apply ih
-          · exact hW.of_from (from_sub _ _ rfl (fun _ _ hx => mem_boxErase _ _ _ _ hx))
-          · exact hout
-        · apply ih
-          · exact hW.of_from (cancelBox_from _ _ _)
-          · exact hout.append_noresult (by
-              intro a v b hm
-              simp only [List.mem_map] at hm
-              obtain ⟨i, _, hi⟩ := hm
-              simp at hi)
-      · exact ⟨hW, hout⟩
+      · apply ih
+        · exact hW.of_from (from_sub _ _ rfl (fun _ _ hx => mem_boxErase _ _ _ _ hx))
+        · exact hout
+      · apply ih
+        · exact hW.of_from (cancelBox_from _ _ _)
+        · exact hout.append_noresult (by
+            intro a v b hm
+            simp only [List.mem_map] at hm
+            obtain ⟨i, _, hi⟩ := hm
+            simp at hi)
+    · exact ⟨hW, hout⟩
 
 theorem finishStep_evs (r : Run) (oc : Outcome) : (finishStep r oc).evs = r.evs := by
   cases oc with
@@ -427,7 +426,7 @@ theorem finishStep_evs (r : Run) (oc : Outcome) : (finishStep r oc).evs = r.evs 
       unfold processCompletion
       split
       · rfl
-      · rw [(completionLoop_U ⟨0, 0, 0⟩ _ _ _).2.2.2]
+      · rw [(completionLoop_U ⟨0, 0, 0⟩ _ _).2.2.2]
         unfold completionEnter; split <;> rfl
     simp only [finishStep]
     split <;> exact this
